@@ -107,7 +107,97 @@ def digest(chk, prop, res, prefix_filter=None):
     return tot
 
 
+def pattern_addr(rng):
+    """An address text as ircd announces it, drawn from the abstraction that drives the printer: every group zero or 1-4 digits
+    (a quarter with all eight groups at four digits: the 39-character texts), plus the IPv4 forms and the values next to them."""
+    k = rng.random()
+    if k < 0.25:
+        return ":".join("%x" % rng.randrange(0x1000, 0x10000) for _ in range(8))
+    if k < 0.6:
+        groups = []
+        for _ in range(8):
+            nd = rng.choice([0, 0, 1, 2, 3, 4])
+            groups.append("0" if nd == 0 else "%x" % rng.randrange(16 ** (nd - 1), 16 ** nd))
+        return ":".join(groups)
+    if k < 0.7:
+        return "%d.%d.%d.%d" % (rng.choice([1, 10, 127, 192, 255]), rng.randrange(256), rng.randrange(256), rng.randrange(256))
+    if k < 0.8:
+        return "0::%d.%d.%d.%d" % (rng.choice([0, 0, 1, 10, 255]), rng.choice([0, 0, 7]), rng.randrange(256), rng.randrange(1, 256))
+    return rng.choice(["0::1", "0::2", "0::ffff", "0::1:0", "0::ffff:0:1", "0::ffff:1.2.3.4", "0:0:0:0:0:ffff:0:0", "0::fffe:1.2.3.4", "1::", "0::",
+                       "ffff:ffff:ffff:ffff:ffff:ffff:ffff:ffff", "0:0:0:0:1:0:0:0", "1:0:0:2:0:0:0:3", "1:0:0:0:2:0:0:3", "0:0:1:0:0:1:0:0", "0::0.0.0.1", "0::0.0.1.1"])
+
+
+def _daemon_worker(a):
+    """The text on the daemon's own output lines, in the situations where the request's text is (re-)made or carried over:
+    plain accept, accept through the class rules (address criteria), accept by the request timer, an id announced again
+    with another address right after something was said about its previous holder."""
+    import random
+    import proto
+    import prun
+    b, seed, n = a["build"], a["seed"], a["n"]
+    rng = random.Random(seed)
+    rules = rng.choice([None, [{"name": "a1", "address": "10.0.0.0/8", "class": "ten"}, {"name": "b2", "address": "2001:db8::/32", "class": "doc"}, {"name": "c3", "class": "rest"}],
+                        [{"name": "m1", "address": "0.0.0.0/0", "class": "v4"}, {"name": "m2", "address": "0::/96", "class": "low"}, {"name": "m3", "address": "*", "class": "any"}]])
+    svcs = rng.choice([[], [("login.svc", "login")], [("drone.svc", "dronecheck")]])
+    cfg = proto.Config(svcs, timeout=rng.choice([None, 3600, 3600]), rules=rules or [], use_class=bool(rules))
+    s = proto.Session(b, cfg, leaks=True)
+    try:
+        for k in range(n):
+            cid = rng.choice([5, 6, 7, 4000 + k])
+            if cid in s.open:
+                s.do({"t": "disconnect", "id": cid})
+            flow = rng.choice(["plain", "timer", "again", "again"])
+            reps = 2 if flow == "again" else 1
+            for rep in range(reps):
+                s.do({"t": "announce", "id": cid, "ip": pattern_addr(rng), "port": rng.choice([1, 1024, 65535])})
+                evs = [{"t": "host", "id": cid, "name": "h%d.example.org" % k}, {"t": "ident", "id": cid, "name": "~u"}, {"t": "nick", "id": cid, "name": "n%d" % k},
+                       {"t": "userinfo", "id": cid, "user": "u", "real": "r"}]
+                rng.shuffle(evs)
+                if svcs and rng.random() < 0.5:
+                    evs.insert(rng.randrange(len(evs)), {"t": "password", "id": cid, "text": "+x acct%d pw" % k})
+                for e in evs:
+                    if cid in s.open:
+                        s.do(e)
+                if cid in s.open:
+                    s.do({"t": "hurry", "id": cid})
+                # the holder is now decided, or soft-held with a 'd' line said about it; 'again' announces the id anew at this point
+            st = s.open.get(cid)
+            if st and flow == "timer" and cfg.timeout:
+                s.do({"t": "timeout", "id": cid})
+            st = s.open.get(cid)
+            for sv in sorted(st["awaiting"]) if st else []:
+                if cid in s.open:
+                    s.do({"t": "reply", "svc": sv, "tag": s.open[cid]["tag"], "text": rng.choice(["OK", "OK acct:1", "NO go away", "AGAIN once more"])})
+            if cid in s.open:
+                s.do({"t": "timeout", "id": cid})
+            if s.dead:
+                break
+        s.finish()
+    except Exception:
+        s.kill()
+        raise
+    r = prun.post(s, b, cfg, ["C09"], seed, do_shrink=True)
+    # what C09's monitor calls 'address' / 'grammar' on a client line is, for the texts drawn here, this property's question
+    r["viol"] = [("C12", "daemon-line-" + rule, "daemon-line-" + sig, text, dict(wit, daemon=True)) for (p, rule, sig, text, wit) in r["viol"] if rule in ("address", "grammar")]
+    return r
+
+
 def run(chk, tier, scale=1.0):
+    import prun
+    bd = prun.build_daemon("c12d-" + tier)
+    nd = int((48 if tier == "quick" else 800) * scale) or 1
+    dres = vcommon.pmap(_daemon_worker, [dict(build=bd, seed=chk.seed * 7919 + i, n=30 if tier == "quick" else 60) for i in range(nd)])
+    for r in dres:
+        chk.add_case(r["hash"], r["nontrivial"])
+        chk.count("daemon_histories")
+        chk.count("daemon_client_lines_judged", r["stats"].get("client_lines", 0))
+        chk.count("daemon_verdict_lines", r["stats"].get("verdicts", 0))
+        for (p, rule, sig, text, wit) in r["viol"]:
+            chk.violation(Violation(p, rule, sig, text, wit))
+        for (kind, func, err, tail) in r["crash"]:
+            if kind != "leak":
+                chk.inconc("daemon crashed during an address history (%s in %s) - see C08" % (kind, func))
+    chk.require("daemon_client_lines_judged", 1000 * min(1.0, scale))
     exe = build_exe("c12-" + tier)
     seed = chk.seed
     jobs = [(exe, ["ntop-patterns", str(d), str(d + 1)], None, 3600) for d in range(5)]
@@ -129,6 +219,10 @@ def run(chk, tier, scale=1.0):
     chk.count("digit_count_patterns", npat)
     for k in ("evaluations", "v4_text", "v6_text", "compressed", "leading0", "accepted"):
         chk.count({"evaluations": "addresses_or_strings_judged", "accepted": "strings_accepted_by_irc_pton"}.get(k, "printed_" + k), tot.get(k, 0))
+    chk.extra["daemon_part"] = ("the real daemon is announced clients whose address texts are drawn from the same abstraction (a quarter of them the 39-character texts, the "
+                                "IPv4-mapped / -compatible forms and their neighbours) and driven to a verdict plainly, through class rules with address criteria, by the request timer, "
+                                "and as an id announced again with another address right after a line about its previous holder; every line the daemon writes about a client must carry "
+                                "a text that denotes the announced address, does not begin with ':' and keeps the line well-formed")
     chk.rule = ("every one of the 5^8 digit-count patterns (each group zero or 1-4 hex digits) x 3 fillings, random "
                 "128-bit values from 8 distributions (sparse, mapped, compatible, near-mapped, small), every out_size 1..40, "
                 "and every plain address irc_pton accepts among exhaustive short strings / mutated seeds; a case is one "
@@ -144,6 +238,9 @@ def run(chk, tier, scale=1.0):
 
 
 def replay(chk, rep):
+    if rep["witness"].get("daemon"):
+        import prun
+        return prun.replay_witness(chk, rep, ["C09"])
     exe = build_exe("c12-replay")
     r = hrun.run([exe] + rep["witness"]["argv"], timeout=3600, env={"H_ADDR_NTOP": "1"})
     print(r.out[-3000:])
